@@ -352,6 +352,27 @@ func driveSign(c *ctx) {
 			c.E("sig.Raw", "d", h32(d), "digest", hx(dg), "rng", "rfc6979", "ok", err == nil, "r", scHexOr(r), "s", scHexOr(s), "v", int(v))
 		}
 	}
+	// the ASN.1 builder used by Sign, on (r, s) shapes that signing reaches only with negligible probability
+	// (short values: several leading zero bytes; top bit set: a padding byte is needed)
+	shapes := []*big.Int{big.NewInt(1), big.NewInt(0x7f), big.NewInt(0x80), big.NewInt(0xff), big.NewInt(0x100), pow2(127), add(pow2(128), -1),
+		pow2(231), pow2(232), pow2(238), pow2(239), add(pow2(240), -1), pow2(247), pow2(248), add(pow2(255), -1), pow2(255), add(bigN, -1)}
+	for i := 0; i < c.scale(10, 200); i++ {
+		shapes = append(shapes, randBig(rng, pow2(uint(1+rng.Intn(255)))))
+	}
+	for i, rv := range shapes {
+		for j, sv := range shapes {
+			if rv.Sign() == 0 || sv.Sign() == 0 || rv.Cmp(bigN) >= 0 || sv.Cmp(bigN) >= 0 || (!c.thorough() && (i+j)%3 != 0) {
+				continue
+			}
+			out := secec.BuildASN1Signature(scFrom(rv), scFrom(sv))
+			r2, s2, err := secec.ParseASN1Signature(out)
+			c.E("der.Build", "r", h32(rv), "s", h32(sv), "out", hx(out), "reparsed", err == nil && scHex(r2) == h32(rv) && scHex(s2) == h32(sv))
+			cp := secec.BuildCompactRecoverableSignature(scFrom(rv), scFrom(sv), byte(i%4))
+			r3, s3, v3, err3 := secec.ParseCompactRecoverableSignature(cp)
+			c.E("cmp.Build", "r", h32(rv), "s", h32(sv), "v", i%4, "out", hx(cp), "reparsed", err3 == nil && scHex(r3) == h32(rv) && scHex(s3) == h32(sv) && int(v3) == i%4)
+		}
+	}
+
 	// Sign: every option combination; SelfVerify on/off must give identical bytes for identical entropy
 	type optcase struct {
 		kind string
